@@ -156,3 +156,365 @@ func init() {
 	register("vfp", &family{replay: replayVfp,
 		rule: "one case = (Map, path); Maps are the distinct TLC states of the builder (deduplicated by fingerprint), paths the set AllPaths of the config; non-trivial = the specification says the path denotes at least one value"})
 }
+
+// ---------------------------------------------------------------------------
+// family "vfk" (C08): ValuesForKey / ValueForKey / PathsForKey / PathForKeyShortest and
+// ValuesForPath with sub-keys, under both field separators.
+// ---------------------------------------------------------------------------
+
+type cond struct {
+	K    string `json:"k"`
+	Neg  bool   `json:"neg"`
+	Kind string `json:"kind"`
+	V    string `json:"v"`
+}
+
+func (c cond) str(sep string) string {
+	s := ""
+	if c.Neg {
+		s = "!"
+	}
+	s += c.K + sep + c.V
+	switch c.Kind {
+	case "b":
+		s += sep + "bool"
+	case "f":
+		s += sep + "num"
+	}
+	return s
+}
+
+func condStrs(cs []cond, sep string) []string {
+	r := make([]string, len(cs))
+	for i, c := range cs {
+		r[i] = c.str(sep)
+	}
+	return r
+}
+
+type vfkCase struct {
+	Key   string       `json:"key"`
+	Conds []cond       `json:"conds"`
+	R     []*tagged.TV `json:"r"`
+}
+type pfkCase struct {
+	Key   string   `json:"key"`
+	Paths []string `json:"paths"`
+	Sl    int      `json:"sl"`
+}
+type vpcCase struct {
+	P     string       `json:"p"`
+	W     string       `json:"w"`
+	Conds []cond       `json:"conds"`
+	R     []*tagged.TV `json:"r"`
+}
+type vfkLine struct {
+	F  string     `json:"f"`
+	M  *tagged.TV `json:"m"`
+	Ks []vfkCase  `json:"ks,omitempty"`
+	Pf []pfkCase  `json:"pf,omitempty"`
+	Vp []vpcCase  `json:"vp,omitempty"`
+}
+
+func condShape(cs []cond) string {
+	parts := []string{}
+	for _, c := range cs {
+		n := ""
+		if c.Neg {
+			n = "!"
+		}
+		parts = append(parts, n+c.Kind)
+	}
+	// order independent
+	if len(parts) == 2 && parts[0] > parts[1] {
+		parts[0], parts[1] = parts[1], parts[0]
+	}
+	return strings.Join(parts, "+")
+}
+
+func replayVfk(line []byte, a *Acc) {
+	var l vfkLine
+	if err := json.Unmarshal(line, &l); err != nil {
+		panic(err)
+	}
+	mv := l.M.ToMap()
+	before := tagged.CanonGo(mv)
+	nontriv := 0
+	defer mxj.SetFieldSeparator()
+	for _, c := range l.Ks {
+		exp := tagged.NormList(c.R)
+		if len(exp) > 0 {
+			nontriv++
+		}
+		for _, sep := range []string{":", "|"} {
+			mxj.SetFieldSeparator(sep)
+			sk := condStrs(c.Conds, sep)
+			one := func(sig, detail string) { a.Mis(sig, detail, vfkLine{F: "vfk", M: l.M, Ks: []vfkCase{c}}) }
+			var got []interface{}
+			var err error
+			var v1 interface{}
+			var e1 error
+			if p := guard(func() { got, err = mv.ValuesForKey(c.Key, sk...); v1, e1 = mv.ValueForKey(c.Key, sk...) }); p != "" {
+				one("vfk:panic", fmt.Sprintf("ValuesForKey(%q,%v) %s", c.Key, sk, p))
+				continue
+			}
+			if err != nil {
+				one("vfk:error", fmt.Sprintf("ValuesForKey(%q,%v) unexpected error %v", c.Key, sk, err))
+				continue
+			}
+			g := tagged.CanonList(got)
+			if !tagged.SameBag(g, exp) {
+				kind := "differs"
+				if len(g) > len(exp) {
+					kind = "extra"
+				} else if len(g) < len(exp) {
+					kind = "missing"
+				}
+				one("vfk:"+kind+":conds="+condShape(c.Conds), fmt.Sprintf("ValuesForKey(%q,%v) on %s: got %s, spec %s", c.Key, sk, short(before), short(strings.Join(g, " ")), short(strings.Join(exp, " "))))
+				continue
+			}
+			if len(exp) == 0 {
+				if e1 != mxj.KeyNotExistError || v1 != nil {
+					one("vfk1:empty-inconsistent", fmt.Sprintf("ValueForKey(%q,%v)=(%v,%v) though no value matches", c.Key, sk, v1, e1))
+				}
+			} else {
+				cv := tagged.CanonGo(v1)
+				found := false
+				for _, e := range exp {
+					if e == cv {
+						found = true
+					}
+				}
+				if e1 != nil || !found {
+					one("vfk1:first-not-member", fmt.Sprintf("ValueForKey(%q,%v)=(%s,%v)", c.Key, sk, cv, e1))
+				}
+			}
+		}
+	}
+	mxj.SetFieldSeparator()
+	for _, c := range l.Pf {
+		one := func(sig, detail string) { a.Mis(sig, detail, vfkLine{F: "vfk", M: l.M, Pf: []pfkCase{c}}) }
+		var got []string
+		var sh string
+		if p := guard(func() { got = mv.PathsForKey(c.Key); sh = mv.PathForKeyShortest(c.Key) }); p != "" {
+			one("pfk:panic", fmt.Sprintf("PathsForKey(%q) %s", c.Key, p))
+			continue
+		}
+		if len(c.Paths) > 0 {
+			nontriv++
+		}
+		if !tagged.SameBag(got, c.Paths) {
+			one("pfk:differs", fmt.Sprintf("PathsForKey(%q) on %s = %v, spec %v", c.Key, short(before), got, c.Paths))
+			continue
+		}
+		if len(c.Paths) == 0 {
+			if sh != "" || got != nil {
+				one("pfk:shortest-nonempty", fmt.Sprintf("PathForKeyShortest(%q) = %q, no path exists", c.Key, sh))
+			}
+			continue
+		}
+		okm := false
+		for _, p := range c.Paths {
+			if p == sh {
+				okm = true
+			}
+		}
+		if !okm || len(strings.Split(sh, ".")) != c.Sl {
+			one("pfk:shortest", fmt.Sprintf("PathForKeyShortest(%q) = %q; paths %v, minimal length %d", c.Key, sh, c.Paths, c.Sl))
+		}
+	}
+	for _, c := range l.Vp {
+		exp := tagged.NormList(c.R)
+		if len(exp) > 0 {
+			nontriv++
+		}
+		for _, sep := range []string{":", "|"} {
+			mxj.SetFieldSeparator(sep)
+			sk := condStrs(c.Conds, sep)
+			one := func(sig, detail string) { a.Mis(sig, detail, vfkLine{F: "vfk", M: l.M, Vp: []vpcCase{c}}) }
+			var got []interface{}
+			var err error
+			var ex bool
+			if p := guard(func() { got, err = mv.ValuesForPath(c.P, sk...); ex, _ = mv.Exists(c.P, sk...) }); p != "" {
+				one("vfpc:panic", fmt.Sprintf("ValuesForPath(%q,%v) %s", c.P, sk, p))
+				continue
+			}
+			g := tagged.CanonList(got)
+			ok := err == nil
+			if ok {
+				if c.W == "1" {
+					ok = tagged.SameBag(g, exp)
+				} else {
+					ok = tagged.SameSeq(g, exp)
+				}
+			}
+			if !ok {
+				one("vfpc:differs:conds="+condShape(c.Conds), fmt.Sprintf("ValuesForPath(%q,%v) on %s: got %s err=%v, spec %s", c.P, sk, short(before), short(strings.Join(g, " ")), err, short(strings.Join(exp, " "))))
+				continue
+			}
+			if ex != (len(exp) > 0) {
+				one("vfpc:exists", fmt.Sprintf("Exists(%q,%v) = %v but %d values", c.P, sk, ex, len(exp)))
+			}
+		}
+	}
+	mxj.SetFieldSeparator()
+	if after := tagged.CanonGo(mv); after != before {
+		a.Mis("vfk:receiver-modified", "key search modified its receiver: "+short(before)+" -> "+short(after), l)
+	}
+	a.Count(2*len(l.Ks)+len(l.Pf)+2*len(l.Vp), nontriv)
+	if nontriv > 20 {
+		for _, c := range l.Ks {
+			if len(c.R) > 0 && len(c.Conds) == 2 {
+				a.Sample(map[string]interface{}{"map": before, "key": c.Key, "subkeys": condStrs(c.Conds, ":"), "expected": tagged.NormList(c.R)})
+				break
+			}
+		}
+	}
+}
+
+// ---------------------------------------------------------------------------
+// family "leaf" (C09): LeafNodes / LeafPaths / LeafValues under no-attr, dot-notation and
+// attribute prefixes; every path is resolved through the real ValuesForPath.
+// ---------------------------------------------------------------------------
+type leafExp struct {
+	P string     `json:"p"`
+	V *tagged.TV `json:"v"`
+}
+type leafCase struct {
+	Na  bool      `json:"na"`
+	Dot bool      `json:"dot"`
+	Ak  []string  `json:"ak"`
+	R   []leafExp `json:"r"`
+}
+type leafLine struct {
+	F  string     `json:"f"`
+	M  *tagged.TV `json:"m"`
+	Cs []leafCase `json:"cs"`
+}
+
+func hasNestedList(v interface{}) bool {
+	switch x := v.(type) {
+	case map[string]interface{}:
+		for _, e := range x {
+			if hasNestedList(e) {
+				return true
+			}
+		}
+	case mxj.Map:
+		return hasNestedList(map[string]interface{}(x))
+	case []interface{}:
+		for _, e := range x {
+			if _, ok := e.([]interface{}); ok || hasNestedList(e) {
+				return true
+			}
+		}
+	}
+	return false
+}
+
+func hasEmptyKey(v interface{}) bool {
+	switch x := v.(type) {
+	case map[string]interface{}:
+		for k, e := range x {
+			if k == "" || hasEmptyKey(e) {
+				return true
+			}
+		}
+	case mxj.Map:
+		return hasEmptyKey(map[string]interface{}(x))
+	case []interface{}:
+		for _, e := range x {
+			if hasEmptyKey(e) {
+				return true
+			}
+		}
+	}
+	return false
+}
+
+func replayLeaf(line []byte, a *Acc) {
+	var l leafLine
+	if err := json.Unmarshal(line, &l); err != nil {
+		panic(err)
+	}
+	mv := l.M.ToMap()
+	before := tagged.CanonGo(mv)
+	emptyKey := hasEmptyKey(mv) || hasNestedList(mv) // outside the resolution clause's domain
+	nontriv, cases := 0, 0
+	defer func() { mxj.SetAttrPrefix("-"); mxj.LeafUseDotNotation(false) }()
+	for _, c := range l.Cs {
+		prefixes := []string{"@", ""}
+		if len(c.Ak) > 0 {
+			prefixes = []string{"-"}
+		}
+		exp := make([]string, len(c.R))
+		expP := make([]string, len(c.R))
+		expV := make([]string, len(c.R))
+		for i, e := range c.R {
+			exp[i] = e.P + " = " + e.V.Norm()
+			expP[i] = e.P
+			expV[i] = e.V.Norm()
+		}
+		for _, pfx := range prefixes {
+			cases++
+			if len(exp) > 0 {
+				nontriv++
+			}
+			mxj.SetAttrPrefix(pfx)
+			mxj.LeafUseDotNotation(c.Dot)
+			one := func(sig, detail string) { a.Mis(sig, detail, leafLine{F: "leaf", M: l.M, Cs: []leafCase{c}}) }
+			var ln []mxj.LeafNode
+			var lp []string
+			var lv []interface{}
+			if p := guard(func() { ln = mv.LeafNodes(c.Na); lp = mv.LeafPaths(c.Na); lv = mv.LeafValues(c.Na) }); p != "" {
+				one("leaf:panic", fmt.Sprintf("LeafNodes(%v) prefix %q on %s: %s", c.Na, pfx, short(before), p))
+				continue
+			}
+			g := make([]string, len(ln))
+			for i, n := range ln {
+				g[i] = n.Path + " = " + tagged.CanonGo(n.Value)
+			}
+			if !tagged.SameBag(g, exp) {
+				one(fmt.Sprintf("leaf:nodes:noattr=%v:dot=%v", c.Na, c.Dot), fmt.Sprintf("LeafNodes(%v) prefix %q dot %v on %s: got %v, spec %v", c.Na, pfx, c.Dot, short(before), g, exp))
+				continue
+			}
+			if !tagged.SameBag(lp, expP) {
+				one(fmt.Sprintf("leaf:paths-not-projection:noattr=%v", c.Na), fmt.Sprintf("LeafPaths(%v) on %s = %v, LeafNodes paths %v", c.Na, short(before), lp, expP))
+				continue
+			}
+			if !tagged.SameBag(tagged.CanonList(lv), expV) {
+				one(fmt.Sprintf("leaf:values-not-projection:noattr=%v", c.Na), fmt.Sprintf("LeafValues(%v) on %s = %v, LeafNodes values %v", c.Na, short(before), tagged.CanonList(lv), expV))
+				continue
+			}
+			// resolution clause: [N] notation, attributes kept, keys free of '.', '[', '*' and non-empty
+			if !c.Dot && !c.Na && !emptyKey {
+				for _, n := range ln {
+					var vals []interface{}
+					var err error
+					if p := guard(func() { vals, err = mv.ValuesForPath(n.Path) }); p != "" {
+						one("leaf:resolve-panic", fmt.Sprintf("ValuesForPath(%q) %s", n.Path, p))
+						break
+					}
+					if err != nil || len(vals) != 1 || tagged.CanonGo(vals[0]) != tagged.CanonGo(n.Value) {
+						one("leaf:not-resolving:shape="+pathShape(n.Path), fmt.Sprintf("leaf path %q of %s resolves to %v (err %v), leaf value %s", n.Path, short(before), tagged.CanonList(vals), err, tagged.CanonGo(n.Value)))
+						break
+					}
+				}
+			}
+		}
+	}
+	if after := tagged.CanonGo(mv); after != before {
+		a.Mis("leaf:receiver-modified", "LeafNodes modified its receiver: "+short(before)+" -> "+short(after), l)
+	}
+	a.Count(cases, nontriv)
+	if nontriv > 6 && len(l.Cs[0].R) > 2 {
+		a.Sample(map[string]interface{}{"map": before, "noattr": l.Cs[0].Na, "dot": l.Cs[0].Dot, "expected": l.Cs[0].R})
+	}
+}
+
+func init() {
+	register("vfk", &family{replay: replayVfk, serial: true,
+		rule: "one case = (Map, key, set of sub-key conditions, field separator) for ValuesForKey/ValueForKey, (Map, key) for PathsForKey/PathForKeyShortest, (Map, path, conditions, separator) for ValuesForPath with sub-keys; non-trivial = expected result non-empty"})
+	register("leaf", &family{replay: replayLeaf, serial: true,
+		rule: "one case = (Map, no-attr flag, dot-notation flag, attribute prefix) for LeafNodes+LeafPaths+LeafValues, each leaf path resolved through ValuesForPath when the resolution clause applies; non-trivial = Map has at least one leaf"})
+}
